@@ -12,6 +12,9 @@ use serde_json::{json, Value};
 struct OpRec {
     t: String,
     op: String,
+    /// name of the producer whose push was suspended (in flight) while this operation ran, or ""
+    #[serde(default)]
+    inn: String,
 }
 
 #[derive(Deserialize)]
@@ -93,14 +96,59 @@ pub fn main(args: &[String]) {
                 let (p, mut c) = queue(inp.capacity);
                 let mut ctx = Ctx { producers: inp.producers.clone(), counters: vec![0; inp.producers.len()] };
                 let mut held = false;
-                let mut res = Vec::new();
-                for o in b.iter() {
+                let mut res: Vec<Value> = Vec::new();
+                let producers = ctx.producers.clone();
+                let mut i = 0;
+                while i < b.len() {
+                    let o = &b[i];
+                    if !o.inn.is_empty() {
+                        // operations i..j ran while the push of `o.inn` (entry j of the history, completed
+                        // after them) was in flight: they are executed from inside its message closure
+                        let outer = o.inn.clone();
+                        let mut j = i;
+                        while j < b.len() && b[j].inn == outer {
+                            j += 1;
+                        }
+                        assert!(j < b.len() && b[j].t == outer && b[j].op == "push", "malformed nested history");
+                        let opid = producers.iter().position(|x| *x == outer).unwrap();
+                        ctx.counters[opid] += 1;
+                        let v = (opid as u64 + 1) * 1_000_000 + ctx.counters[opid];
+                        let mut inner_res: Vec<Value> = Vec::new();
+                        let r = {
+                            let ctx_ref = &mut ctx;
+                            let c_ref = &mut c;
+                            let held_ref = &mut held;
+                            let inner = &b[i..j];
+                            let pclone = p.clone();
+                            let ir = &mut inner_res;
+                            let producers = producers.clone();
+                            p.push_with(v, move || {
+                                for io in inner.iter() {
+                                    if io.t == "cons" {
+                                        ir.push(do_cons(c_ref, held_ref, &producers, &io.op));
+                                    } else {
+                                        let pid = producers.iter().position(|x| *x == io.t).unwrap();
+                                        ir.push(do_prod(&pclone, pid, ctx_ref, &io.op));
+                                    }
+                                }
+                            })
+                        };
+                        res.extend(inner_res);
+                        res.push(match r {
+                            VPush::Ok => ret("ok", "", 0),
+                            VPush::Full => ret("full", "", 0),
+                            VPush::Closed => ret("closed", "", 0),
+                        });
+                        i = j + 1;
+                        continue;
+                    }
                     if o.t == "cons" {
-                        res.push(do_cons(&mut c, &mut held, &ctx.producers.clone(), &o.op));
+                        res.push(do_cons(&mut c, &mut held, &producers, &o.op));
                     } else {
-                        let pid = ctx.producers.iter().position(|x| *x == o.t).unwrap();
+                        let pid = producers.iter().position(|x| *x == o.t).unwrap();
                         res.push(do_prod(&p, pid, &mut ctx, &o.op));
                     }
+                    i += 1;
                 }
                 res
             });
